@@ -99,6 +99,14 @@ type harnessSig struct {
 
 func newReplayer() *replayer {
 	os.MkdirAll(filepath.Join(verifDir, "tmp"), 0o755)
+	// directories left behind by runs that were killed (timeouts): remove the old ones
+	if ents, err := os.ReadDir(filepath.Join(verifDir, "tmp")); err == nil {
+		for _, e := range ents {
+			if info, ierr := e.Info(); ierr == nil && strings.HasPrefix(e.Name(), "replay-") && time.Since(info.ModTime()) > 3*time.Hour {
+				os.RemoveAll(filepath.Join(verifDir, "tmp", e.Name()))
+			}
+		}
+	}
 	tmp, err := os.MkdirTemp(filepath.Join(verifDir, "tmp"), "replay-")
 	if err != nil {
 		panic(err)
